@@ -9,6 +9,8 @@ FINDINGS = {
     "decl_const_ptr_param": "decl_const_ptr_param: a top-level const pointer parameter `T *const q` is printed `const T *const q` (const moved to the pointee); discards-qualifiers error; text equals the model's",
     "decl_spelling_needs_header": "decl_spelling_needs_header: `_Bool` / `_Complex` are printed `bool` / `complex`, which need <stdbool.h> / <complex.h> that the input header does not include; text equals the model's",
     "static_binding_without_wrapper": "static_binding_without_wrapper: a static function whose symbol name differs from its Rust name (every static in C++ mode, Rust-keyword names in C) gets a binding linked to the internal symbol and no wrapper (should_wrap = false); equals the model's decision",
+    "va_wrapper_name_clash": "va_wrapper_name_clash: a function wrapped as variadic (ParseCallbacks::wrap_as_variadic_fn) whose remaining parameter (or own name) is `ap`, or `ret` with a non-void return, gets a wrapper that redeclares that name (`int f__extern(int ret, ...) { int ret; va_list ap; …`); clang: redefinition; text equals the model's",
+    "va_wrapper_needs_stdarg": "va_wrapper_needs_stdarg: the variadic wrapper uses `va_list` / `va_start` / `va_end`, which need <stdarg.h>; a header that spells the parameter `__builtin_va_list` without including it (as bindgen's own tests/headers/wrap-static-fns.h does) gets a wrapper file that does not compile; text equals the model's",
     "header_contents_not_in_wrapper": "header_contents_not_in_wrapper: headers given with Builder::header_contents are neither included nor inlined in the wrapper file (input_header_contents is moved out of the options before codegen); text equals the model's",
 }
 
@@ -41,6 +43,21 @@ def _name_theorems(failure, log):
     return ("theorem(s) " + ", ".join(names) + " no longer check: " if names else "") + failure
 
 
+def _build_harness():
+    """`cargo build --bin c16 --features va`: the harness feature `va` turns on bindgen's `experimental` feature
+    (ParseCallbacks::wrap_as_variadic_fn) for this binary only; every other harness binary keeps linking the
+    library exactly as before (common.cargo_build_harness, no features)."""
+    common.ensure_repo_link()
+    lock = os.path.join(common.HARNESS, "Cargo.lock")
+    if not os.path.exists(lock):
+        shutil.copy(os.path.join(common.REPO, "Cargo.lock"), lock)
+    e = common.env_clean()
+    e["RUSTFLAGS"] = common.HOOK_RUSTFLAGS
+    rc, out = common.sh(["cargo", "build", "--offline", "--profile", "verif", "--features", "va", "--bin", "c16"],
+                        cwd=common.HARNESS, env=e, timeout=3600)
+    return rc == 0, out
+
+
 def _harness(res, work, extra, env=None):
     rc, out, rep = common.run_harness("c16", res, work, extra_args=extra, extra_env=env, timeout=3300)
     if rep is None:
@@ -56,7 +73,7 @@ def _run(res, work, extra):
     lean = common.lean_obligations("C16", res.tier)
     for f in lean["failures"]:
         broken.append(("proof-obligation", _name_theorems(f, lean["log"])))
-    okh, hlog = common.cargo_build_harness(["c16"])
+    okh, hlog = _build_harness()
     if not okh:
         res.violation("correspondence", "bindgen no longer builds inside the C16 harness (API used by the correspondence changed)", hlog[-3000:], found_input=False)
         return
@@ -73,6 +90,10 @@ def _run(res, work, extra):
     mvi = rep["model_vs_impl"]
     orf = rep["oracle_failures"]
     mach = rep["machinery"]
+    va = rep.get("va") or {}
+    if not va.get("built_with_feature_va") or (not extra and not va.get("oracle", {}).get("variadic_bindings_called_from_rust_and_compared")):
+        res.violation("machinery-error", "the wrap_as_variadic cases did not run (c16 built without feature `va`, or no variadic binding was called)",
+                      json.dumps(va)[:2000], found_input=False)
     # implementation-vs-oracle failures outside every known region: concrete failing inputs
     for f in orf["first"][:3]:
         res.violation("oracle-failure", "%s (outside every known-finding region or not the text the model predicts)" % f.get("kind"),
@@ -104,7 +125,7 @@ def _run(res, work, extra):
         "checker_cmd": "python3 translator (SerializeArms) && lake build BindgenModel.Props.C16 bgmodel && lake env lean <#print axioms audit>" + (" && lake env leanchecker BindgenModel.Props.C16" if res.tier == "thorough" else ""),
         "theorems": lean["theorems"],
         "evaluations": rep["evaluations"], "distinct_nontrivial": rep["distinct_nontrivial"],
-        "rule": "one evaluation = one wrapped static function whose emitted wrapper line was compared with the model's text and compiled by clang with the header's flags; distinct = distinct (return type, parameter types, named/unnamed) signatures among those with at least one parameter (parameterless functions are the trivial case)",
+        "rule": "one evaluation = one wrapped static function whose emitted wrapper (one line, or the multi-line variadic form of the wrap_as_variadic path) was compared with the model's text and compiled by clang with the header's flags; distinct = distinct (return type, parameter types, named/unnamed) signatures among those with at least one parameter (parameterless functions are the trivial case); the wrap_as_variadic cases are counted separately under wrap_as_variadic_path",
         "samples": rep["samples"],
         "traces_validated_against_impl": rep["evaluations"],
         "disagreements_checked": mvi["count"],
@@ -119,10 +140,11 @@ def _run(res, work, extra):
         "oracle_failures_outside_known_regions": orf["count"],
         "ir_vs_header_mismatches_inside_defect_regions": rep["ir_vs_header"]["count"],
         "known_region_cases": known,
+        "wrap_as_variadic_path": va,
     })
     res.assumptions += [
         "x86_64 Linux / ELF: C symbols are not decorated, so Function::mangled_name() == name() for C input",
-        "the wrap_as_variadic_fn callback path of CSerialize for Function is not modelled (no callback is installed by the generator)",
+        "wrap_as_variadic path: one callback is installed (ParseCallbacks::last_callback is not exercised with several); the Rust type of the remaining parameters in the variadic binding is rustc-checked by the linked caller, not modelled; va_start on a last named parameter that undergoes default promotion (short/char/float) is undefined behaviour by C11 7.16.1.4p4 and only counted (clang -Wvarargs), it works on x86-64",
         "the prelude of the wrapper file (#include lines, `// Static wrappers`) is modelled in the harness, not in Lean",
         "long double / _Complex parameters are compiled and symbol-checked but not called from Rust (no Rust type with the same ABI)",
     ]
@@ -139,7 +161,7 @@ def replay(path):
     res = common.Result("C16", d.get("tier", "quick"), d.get("seed", 1))
     common.regen_tables()
     common.lean_obligations("C16", "quick")
-    common.cargo_build_harness(["c16"])
+    _build_harness()
     work = tempfile.mkdtemp(prefix="bgverif_c16_replay_")
     try:
         rc, out, rep = common.run_harness("c16", res, work, extra_args=["--case", str(case)], timeout=1200)
